@@ -86,7 +86,110 @@ def elem_facts(v):
     except Exception:  # noqa
         from visions.types.email_address import FQDA
     f["fqda"] = isinstance(v, FQDA)
+    f.update(conv_facts(v, FQDA))
     return f
+
+
+OBS_BITS = ("none", "bool", "int", "float", "complex", "str", "datetime", "date", "purepath", "abs", "parseresult", "uuid", "fqda", "geom", "ip")
+
+
+def conv_facts(v, FQDA):
+    """results of the element conversions the list back end's relations apply, computed with the library functions themselves"""
+    import contextlib, datetime as _dt, io, ipaddress, pathlib, urllib.parse, uuid as _uuid
+    from alpha import fl, outcome as oc
+
+    def lower_tf():
+        lo = v.lower()
+        return (lo == "true") if lo in {"true", "false"} else None
+
+    def wkt_truth():
+        from shapely import wkt
+        with contextlib.redirect_stderr(io.StringIO()):
+            return bool(wkt.loads(v))
+    return {"lo": oc(lower_tf), "f": oc(lambda: fl(float(v))), "z": oc(lambda: bool(v[0] == "0")),
+            "c": oc(lambda: (lambda z: [fl(z.real), fl(z.imag)])(complex(v))),
+            "strp": oc(lambda: _dt.datetime.strptime(v, "%Y-%m-%d %H:%M:%S").time() == _dt.time(0, 0)),
+            "url": oc(lambda: (lambda r: bool(r.netloc and r.scheme))(urllib.parse.urlparse(v))),
+            "uuidp": oc(lambda: (_uuid.UUID(v), None)[1]), "ipp": oc(lambda: (ipaddress.ip_address(v), None)[1]),
+            "email": oc(lambda: (lambda e: bool(e.local and e.fqdn))(FQDA(*v.split("@", maxsplit=1)))),
+            "wkt": oc(wkt_truth), "win": oc(lambda: bool(pathlib.PureWindowsPath(v).is_absolute())),
+            "px": oc(lambda: bool(pathlib.PurePosixPath(v).is_absolute())),
+            "fv": fl(v) if isinstance(v, float) else None,
+            "cv": [fl(v.real), fl(v.imag)] if isinstance(v, complex) else None,
+            "mid": oc(lambda: bool(v.time() == _dt.time(0, 0)))}
+
+
+def elem_obs(v):
+    """what is compared of one element of a cast sequence"""
+    f = elem_facts(v)
+    return {"b": sorted(k for k in OBS_BITS if f.get(k)), "fv": f["fv"], "cv": f["cv"]}
+
+
+def seq_obs(x):
+    if not isinstance(x, (list, tuple)):
+        return {"notseq": type(x).__name__}
+    return [elem_obs(v) for v in x]
+
+
+LIST_RELS = None
+
+
+def list_rels():
+    global LIST_RELS
+    if LIST_RELS is None:
+        LIST_RELS = [(r.related_type, t) for t in ALL for r in t.relations if r.inferential]
+    return LIST_RELS
+
+
+def list_view(x, v, ts):
+    rels = []
+    for src, dst in list_rels():
+        if v["mem"].get(str(src)) != ["ok", True]:
+            continue
+        rel = dst.relations[src]
+        gv = outcome(lambda: bool(rel.is_relation(x, {})))
+        ent = {"src": str(src), "dst": str(dst), "guard": gv, "xform": None}
+        if gv == ["ok", True]:
+            o = outcome(lambda: rel.transform(x, {}))
+            ent["xform"] = ["ok", seq_obs(o[1])] if o[0] == "ok" else o
+        rels.append(ent)
+    o = outcome(lambda: ts.infer(x)[:2])
+    inf = {"path": [str(t) for t in o[1][1]], "seq": seq_obs(o[1][0])} if o[0] == "ok" else {"raises": o[1]}
+    return {"rels": rels, "infer": inf}
+
+
+def list_compare(o, resp):
+    diffs = []
+    def norm(seq):
+        return [dict(e, b=sorted(e["b"])) for e in seq] if isinstance(seq, list) else seq
+    mrel = {(r["src"], r["dst"]): r for r in resp.get("rels", [])}
+    for m_ in mrel.values():
+        if isinstance(m_.get("xform"), list) and m_["xform"][0] == "ok":
+            m_["xform"][1] = norm(m_["xform"][1])
+    if "seq" in resp["trav"][0].get("infer", {}):
+        resp["trav"][0]["infer"]["seq"] = norm(resp["trav"][0]["infer"]["seq"])
+    for r in o["lv"]["rels"]:
+        m = mrel.get((r["src"], r["dst"]))
+        name = "%s->%s" % (r["src"], r["dst"])
+        if m is None:
+            diffs.append({"what": "relation-missing", "rel": name})
+        elif m["guard"] != r["guard"]:
+            diffs.append({"what": "guard", "rel": name, "real": r["guard"], "model": m["guard"]})
+        elif r["guard"] == ["ok", True]:
+            mx, rx = m["xform"], r["xform"]
+            if (mx or [None])[0] != (rx or [None])[0] or (rx[0] == "raises" and mx[1] != rx[1]):
+                diffs.append({"what": "xform-outcome", "rel": name, "real": rx and rx[:2], "model": mx and mx[:2]})
+            elif rx[0] == "ok" and mx[1] != rx[1]:
+                diffs.append({"what": "xform", "rel": name, "real": rx[1], "model": mx[1]})
+    a, b = o["lv"]["infer"], resp["trav"][0].get("infer", {})
+    if "raises" in a or "raises" in b:
+        if a.get("raises") != b.get("raises"):
+            diffs.append({"what": "infer-outcome", "real": a.get("raises", "ok"), "model": b.get("raises", "ok")})
+    elif a["path"] != b["path"]:
+        diffs.append({"what": "infer-path", "real": a["path"], "model": b["path"]})
+    elif a["seq"] != b["seq"]:
+        diffs.append({"what": "infer-data", "real": a["seq"], "model": b["seq"]})
+    return diffs
 
 
 NP_RELS = None
@@ -429,6 +532,7 @@ def observe(recipe, backend):
         try:
             out["elems"] = [elem_facts(e) for e in x]
             out["mem"] = v["mem"]
+            out["lv"] = list_view(x, v, ts)
             out["detect_path"] = [str(t) for t in d[1][1]] if d[0] == "ok" else ["raises", d[1]]
         except Exception:  # noqa
             pass
@@ -721,8 +825,12 @@ def run_backend(tier, seed, backend, n=None, nproc=16):
             tr = resp["trav"][0]
             if "detect" in tr and o["detect_path"] and o["detect_path"][0] != "raises" and tr["detect"] != o["detect_path"]:
                 diffs.append({"what": "detect-path", "real": o["detect_path"], "model": tr["detect"]})
+            if "lv" in o:
+                diffs += list_compare(o, resp)
             if diffs:
                 model_dis.append({"kind": "pylist", "recipe": o["recipe"], "diffs": diffs[:4]})
+                for f in o["fails"]:
+                    f["known_eligible"] = False
     n_good = 0
     if backend == "numpy":
         from common import Driver
